@@ -146,12 +146,14 @@ fn mkdos3x(vol: Option<&String>,boot: bool,img: Box<dyn DiskImage>) -> Result<Ve
     }
 }
 
-fn mkprodos(vol: Option<&String>,boot: bool,img: Box<dyn DiskImage>) -> Result<Vec<u8>,DYNERR> {
+fn mkprodos(vol: Option<&String>,boot: bool,kind: &DiskKind,img: Box<dyn DiskImage>) -> Result<Vec<u8>,DYNERR> {
     if boot {
         error!("{}",BOOT_MESS);
         return Err(Box::new(CommandError::UnsupportedItemType));
     }
-    let floppy = match img.kind() {
+    // use the requested disk kind: a PO image of a 3.5 inch disk reports `LogicalBlocks`,
+    // which would select the hard disk boot block for PO but the floppy one for WOZ2/2MG
+    let floppy = match *kind {
         DiskKind::D35(_) => true,
         DiskKind::D525(_) => true,
         DiskKind::D8(_) => true,
@@ -289,7 +291,7 @@ pub fn mkdsk(cmd: &clap::ArgMatches) -> STDRESULT {
                 "cpm3" => mkcpm(maybe_vol,boot,&kind,img,3),
                 "dos32" => mkdos3x(maybe_vol,boot,img),
                 "dos33" => mkdos3x(maybe_vol,boot,img),
-                "prodos" => mkprodos(maybe_vol,boot,img),
+                "prodos" => mkprodos(maybe_vol,boot,&kind,img),
                 "pascal" => mkpascal(maybe_vol,boot,img),
                 "fat" => mkfat(maybe_vol,boot,img),
                 _ => panic!("unreachable")
